@@ -1,4 +1,5 @@
 import LoguruModel.Retention.Spec
+import LoguruModel.Retention.Dispatch
 import LoguruModel.Driver
 open Py Py.Glob Retention Retention.Spec
 
@@ -19,6 +20,15 @@ def parseEntries : List String → Option (List Entry)
 def actStr : Act → String
   | .close => "close" | .rename => "rename" | .compress => "compress"
   | .retention => "retention" | .create => "create"
+
+def parseArg (kind arg : String) : Option RetArg :=
+  if kind == "s" then (decTok arg).map RetArg.str
+  else if kind == "t" then arg.toInt?.map RetArg.timedelta
+  else if kind == "i" then arg.toInt?.map RetArg.int
+  else if kind == "c" then some RetArg.callable
+  else if kind == "n" then some RetArg.none
+  else if kind == "o" then some RetArg.other
+  else none
 
 def step (line : String) : String :=
   match line.splitOn " " with
@@ -69,6 +79,23 @@ def step (line : String) : String :=
         | .ok del => "ok " ++ " ".intercalate (del.map (fun e => encTok e.name))
         | .error e => "err " ++ toString e
       | none => "bad-op"
+    | _, _, _, _ => "bad-op"
+  | ["mk", kind, arg] =>
+    match parseArg kind arg with
+    | some a =>
+      match makeRetention a with
+      | .ok .noRetention => "none"
+      | .ok .callable => "callable"
+      | .ok (.policy (.count n)) => s!"count {n}"
+      | .ok (.policy (.age us)) => s!"age {us}"
+      | .error e => "err " ++ toString e
+    | none => "bad-op"
+  | "retcfg" :: path :: kind :: arg :: now :: rest =>
+    match decTok path, parseArg kind arg, now.toInt?, parseEntries rest with
+    | some path, some a, some now, some es =>
+      match retentionConfigured path a now es with
+      | .ok del => "ok " ++ " ".intercalate (del.map (fun e => encTok e.name))
+      | .error e => "err " ++ toString e
     | _, _, _, _ => "bad-op"
   | "sel" :: path :: rest =>
     match decTok path, parseEntries rest with
